@@ -214,6 +214,17 @@ def main():
                     nt = types_by_scoped.get(sc)
                     fact(nt is not None and bool(nt['flags'] & F('Type.F_nested')) and tyname(nt['outer_class']) == c['name'] and ('%s::%s' % (sc, m['method'])) in fn_by_scoped, 'nesting',
                          'nested class %s: %s' % (sc, nt and (nt['flags'], tyname(nt['outer_class']))))
+                    if m.get('deep'):
+                        sc2 = '%s::%s' % (sc, m['deep'])
+                        dt = types_by_scoped.get(sc2)
+                        fact(dt is not None and bool(dt['flags'] & F('Type.F_nested')) and tyname(dt['outer_class']) == sc and ('%s::deep_method' % sc2) in fn_by_scoped, 'nesting',
+                             'class nested two levels down %s: %s' % (sc2, dt and (dt['flags'], tyname(dt['outer_class']), dt['scoped_name'])))
+                    if m.get('deep_enum'):
+                        sc2 = '%s::%s' % (sc, m['deep_enum'])
+                        dt = types_by_scoped.get(sc2)
+                        fact(dt is not None and bool(dt['flags'] & F('Type.F_enum')) and tyname(dt['outer_class']) == sc
+                             and [v['value'] for v in dt['enum_values']] == [3, 4], 'nesting',
+                             'enum nested two levels down %s: %s' % (sc2, dt and (dt['flags'], tyname(dt['outer_class']))))
             if c['dtor'] and not c['bases']:      # (a destructor inherited from a single public base with a virtual destructor is not repeated)
                 fs = fn_by_scoped.get('%s::~%s' % (c['name'], c['name']), [])
 
